@@ -42,9 +42,27 @@ func NewStore(kind string, root *Node, t Tree) (Store, error) {
 		return &mapStore{kind: kind, root: root, data: nat.(map[string]interface{}), slices: slices}, nil
 	case "reflect-struct", "node-struct":
 		return newStructStore(kind, root, t)
+	case "json-reader":
+		// a document read by the library's JSON reader, served as it is (for reads and navigation)
+		n, err := nodeutil.ReadJSON(ToJSON("", root, t, JSONStyle{Num64AsString: true}))
+		if err != nil {
+			return nil, err
+		}
+		return &readerStore{node: n, data: CloneTree(t)}, nil
 	}
 	return nil, fmt.Errorf("store kind %q", kind)
 }
+
+type readerStore struct {
+	node node.Node
+	data Tree
+}
+
+func (s *readerStore) Kind() string            { return "json-reader" }
+func (s *readerStore) Node() node.Node         { return s.node }
+func (s *readerStore) Snapshot() (Tree, error) { return CloneTree(s.data), nil }
+func (s *readerStore) KeepsOrder() bool        { return true }
+func (s *readerStore) ZeroIsUnset() bool       { return false }
 
 type rsStore struct {
 	root *Node
